@@ -1,7 +1,8 @@
 (* C04 — DTD never runs conflicting accesses at the same time.
    Statements only; proofs live in DTD/DTDEngine.v and DTD/DTDProofs.v (model: DTD/DTDDefs.v,
    see Properties_C03.v).  [st s t = Running] is the set `running` of the engine. *)
-From PV Require Import Base.Tac DTD.DTDDefs DTD.DTDSeq DTD.DTDChain DTD.DTDEngine DTD.DTDProofs.
+From PV Require Import Base.Tac DTD.DTDDefs DTD.DTDSeq DTD.DTDChain DTD.DTDEngine DTD.DTDProofs
+  DTD.DTDGate DTD.DTDGateProofs.
 
 (* invariant of every run: two running tasks never conflict *)
 Theorem C04_exclusive : forall body p gate m0 es t1 t2,
@@ -58,4 +59,45 @@ Example C04_example :
   map (st s) [0;1;2;3;4] = [Done; Running; Running; Idle; Idle] /\
   running_conflicts C04_ex_p s = 0 /\ can_begin (dep_fn C04_ex_p) s 3 = false /\
   conflictb (task_at C04_ex_p 1) (task_at C04_ex_p 3) = true.
+Proof. vm_compute. repeat split. Qed.
+
+(* ---- the mechanism below the protocol (DTD/DTDGate.v) ---------------------------------------
+   Flow-level model of how the code realises "a writer waits for the readers since the last
+   writer": tile->last_user (task address, flow, INPUT?, alive), the flows chained behind the
+   owner of the tile, the reader count of the shared copy, the walk of a completing writer
+   (parsec_dtd_ordering_correctly), immediate activation on a chain that is not alive, the
+   test of data_lookup_of_dtd_task (readers > 0: AGAIN), task structs recycled per task class.
+   [grun true] = with the guard of notes/findings/C03-stale-last-user.patch, [grun false] = the
+   code as it is.  [norep p]: no task names a tile twice. *)
+
+(* with the guard: for every sequence (norep) and EVERY event list the mechanism never has two
+   conflicting tasks running, and a task begins only after every earlier conflicting task is done *)
+Theorem C04_mechanism_exclusive : forall p, norep p -> forall es t1 t2,
+  g_st (grun true p es) t1 = Running -> g_st (grun true p es) t2 = Running -> t1 <> t2 ->
+  ~ conflict (task_at p t1) (task_at p t2).
+Proof. exact gate_exclusive. Qed.
+Print Assumptions C04_mechanism_exclusive.
+
+Theorem C04_mechanism_begun_after : forall p, norep p -> forall es t i,
+  g_st (grun true p es) t <> Idle -> i < t -> conflict (task_at p i) (task_at p t) ->
+  g_st (grun true p es) i = Done.
+Proof. exact gate_begun_after. Qed.
+Print Assumptions C04_mechanism_begun_after.
+
+(* the code as it is: the literal statement is FALSE of the mechanism model — a recycled task
+   struct is taken for an earlier flow of the task being inserted, a reader count is released
+   that was never taken, and a writer begins while a reader of the same tile is running.
+   Witness replayed on the real code: corpus/C04/stale_last_user.txt *)
+Theorem C04_mechanism_unguarded_refuted : exists p es t1 t2, norep p /\ t1 <> t2 /\
+  g_st (grun false p es) t1 = Running /\ g_st (grun false p es) t2 = Running /\
+  conflict (task_at p t1) (task_at p t2).
+Proof. exact gate_unguarded_refuted. Qed.
+Print Assumptions C04_mechanism_unguarded_refuted.
+
+Example C04_mechanism_example :
+  (let s := grun false gate_witness_p gate_witness_es in
+   map (g_st s) [0;1;2;3;4;5] = [Done; Done; Done; Done; Running; Running] /\
+   map (g_addr s) [1;2] = [1;1]) /\
+  (let s := grun true gate_witness_p gate_witness_es in
+   map (g_st s) [0;1;2;3;4;5] = [Done; Done; Done; Done; Running; Idle]).
 Proof. vm_compute. repeat split. Qed.
